@@ -659,3 +659,61 @@ Section Move.
       rewrite Hm. apply Permutation_middle.
   Qed.
 End Move.
+
+(* ---- C10: moving a TYPE / an ENUM declaration to another top-level position ---- *)
+Section Move2.
+  Variable path_props : coords -> option (list bytes).
+  Variable body_text : coords -> bytes.
+  Variable banned : list kind.
+  Notation build := (build path_props body_text banned).
+
+  Theorem type_moved_lemma first a t b1 b2 c :
+    tree_kids t = [] -> dk t = KType -> kind_in KType banned = false ->
+    let n := named (tree_dir t) (bs "Name") in
+    (forall p, In p (positions_all (b1 ++ b2)) -> typ_step_ok n (fst p) (snd p)) ->
+    build ((first :: a) ++ t :: b1 ++ b2) = COk c ->
+    exists c', build ((first :: a ++ b1) ++ t :: b2) = COk c' /\
+      Permutation (c_types c) (c_types c') /\
+      c_servers c' = c_servers c /\ c_enums c' = c_enums c /\ c_tags c' = c_tags c /\ c_inters c' = c_inters c /\
+      c_info c' = c_info c /\ c_jsight c' = c_jsight c.
+  Proof.
+    intros Hl Hk Hb n Hok Hc.
+    apply (type_inserted_lemma path_props body_text banned first a t (b1 ++ b2) c Hl Hk Hb Hok) in Hc
+      as [c0 [nt [l1 [l2 [Hc0 [Hn [Hfresh [Ent [Ebody [Htyp [HK ->]]]]]]]]]]].
+    assert (Hok2 : forall p, In p (positions_all b2) -> typ_step_ok n (fst p) (snd p)).
+    { intros p Hp. apply Hok. rewrite positions_all_app. apply in_or_app. right; exact Hp. }
+    assert (Hforest : (first :: a) ++ b1 ++ b2 = (first :: a ++ b1) ++ b2) by (simpl; rewrite app_assoc; reflexivity).
+    rewrite Hforest in Hc0.
+    destruct (catalog_keys_lemma _ _ _ _ _ Hc0) as [_ [Ks _]].
+    rewrite positions_all_app in Ks. unfold type_names in Ks. rewrite flat_map_app in Ks.
+    destruct (split_at_keys _ _ _ Ks) as [m1 [m2 [Hm Hmk]]].
+    exists (upd_types c0 (m1 ++ (n, {| ut_annot := d_annot (tree_dir t); ut_notation := nt; ut_schema := schema_of (tree_dir t) |}) :: m2)). split.
+    - apply (type_inserted_lemma path_props body_text banned first (a ++ b1) t b2 _ Hl Hk Hb Hok2).
+      exists c0, nt, m1, m2. repeat split; try assumption.
+    - simpl. rewrite Htyp in Hm. repeat split; try reflexivity.
+      eapply Permutation_trans; [apply Permutation_sym, Permutation_middle|].
+      rewrite Hm. apply Permutation_middle.
+  Qed.
+
+  Theorem enum_moved_lemma first a t b1 b2 c :
+    tree_kids t = [] -> enum_node t = true -> kind_in KEnum banned = false ->
+    build ((first :: a) ++ t :: b1 ++ b2) = COk c ->
+    exists c', build ((first :: a ++ b1) ++ t :: b2) = COk c' /\
+      Permutation (c_enums c) (c_enums c') /\
+      c_servers c' = c_servers c /\ c_types c' = c_types c /\ c_tags c' = c_tags c /\ c_inters c' = c_inters c /\
+      c_info c' = c_info c /\ c_jsight c' = c_jsight c.
+  Proof.
+    intros Hl Hen Hb Hc.
+    apply (enum_inserted_lemma path_props body_text banned first a t (b1 ++ b2) c Hl Hen Hb) in Hc
+      as [c0 [Hc0 [Hn [Hfresh ->]]]].
+    assert (Hforest : (first :: a) ++ b1 ++ b2 = (first :: a ++ b1) ++ b2) by (simpl; rewrite app_assoc; reflexivity).
+    rewrite Hforest in Hc0.
+    exists (upd_enums c0 (map enum_entry (filter enum_node ((first :: a ++ b1) ++ t :: b2)))). split.
+    - apply (enum_inserted_lemma path_props body_text banned first (a ++ b1) t b2 _ Hl Hen Hb).
+      exists c0. repeat split; assumption.
+    - cbn [c_enums upd_enums c_servers c_types c_tags c_inters c_info c_jsight]. repeat split; try reflexivity.
+      apply Permutation_map. apply Permutation_filter.
+      cbn [app]. constructor. rewrite <- app_assoc.
+      apply Permutation_app_head. apply (Permutation_middle b1 b2 t).
+  Qed.
+End Move2.
